@@ -2,6 +2,7 @@ package gofakes3
 
 import (
 	"fmt"
+	"math"
 	"net/http"
 	"strconv"
 	"strings"
@@ -137,7 +138,9 @@ func parseRangeHeader(s string) (*ObjectRangeRequest, error) {
 }
 
 // parseBytePos parses a position or suffix length of a byte range: decimal
-// digits only, where strconv.ParseInt also takes a sign.
+// digits only, where strconv.ParseInt also takes a sign. A number beyond int64
+// is still a well formed one that lies beyond the end of any object, where
+// Range clips or rejects it: it is read as the largest int64.
 func parseBytePos(s string) (int64, error) {
 	if s == "" {
 		return 0, ErrInvalidRange
@@ -147,5 +150,9 @@ func parseBytePos(s string) (int64, error) {
 			return 0, ErrInvalidRange
 		}
 	}
-	return strconv.ParseInt(s, 10, 64)
+	n, err := strconv.ParseInt(s, 10, 64)
+	if nerr, ok := err.(*strconv.NumError); ok && nerr.Err == strconv.ErrRange {
+		return math.MaxInt64, nil
+	}
+	return n, err
 }
